@@ -464,6 +464,7 @@ pub fn c02(run: &mut Run) {
         run.require_label("c02_exact", l, 0.05);
     }
     structural_exhaustive(run, "c02_structural_exhaustive", true);
+    crate::fuzzdrv::campaign(run, "fz_c02", 1_200_000);
 }
 
 // =============================================================================================
@@ -745,6 +746,7 @@ pub fn c09(run: &mut Run) {
     run.require_label("c09_script", "backwards_step", 0.3);
     run.require_label("c09_script", "clone_used_after_source_mutated", 0.1);
     run.require_label("c09_script", "two_start_with_on_one", 0.1);
+    crate::fuzzdrv::campaign(run, "fz_c09", 1_200_000);
 }
 
 // =============================================================================================
@@ -1221,4 +1223,5 @@ pub fn c12(run: &mut Run) {
     for l in ["empty_list", "single", "ge_2_components", "shared_property_different_values", "disjoint_reordered", "infinite_component", "cycle_durations_agree", "boundary_repeat"] {
         run.require_label("c12_overlay", l, 0.02);
     }
+    crate::fuzzdrv::campaign(run, "fz_c12", 1_200_000);
 }
